@@ -235,7 +235,7 @@ def p3(ctx):
     for did in sorted(wl.pend_drains):
         b = crate.bodies[did]
         # the loop body removes the chosen key and hands it to a handler
-        rem = [c for c in b.calls if c.callee and c.callee.name == "remove" and c.args and role_mentions_field(b.role_of_operand(c.args[0]), "pending")]
+        rem = [c for c in b.calls if c.callee and c.callee.name in ("remove", "remove_entry", "pop_first", "take") and c.args and role_mentions_field(b.role_of_operand(c.args[0]), "pending")]
         handlers = [c for c in b.calls if c.callee and c.callee.target in crate.bodies and c.callee.target not in wl.P]
         ok = False
         for r in rem:
